@@ -648,7 +648,11 @@ func runNegotiate2(o opts) error {
 			}
 		}
 		kills := sr.KillCount()
-		cl.Kill()
+		if serr != nil {
+			cl.Kill()
+		} else {
+			sr.Exit() // a Kill would first try to connect to the announced (fictitious) address
+		}
 		in := sx.L{
 			sx.L{sx.I(c.CVersion), sx.Bool(c.CLegacy), sx.L{sx.I(clegacy.ID), sx.I(clegacy.Kind)}, cents},
 			sx.L{sx.I(c.SVersion), sx.Bool(c.SLegacy), sx.L{sx.I(slegacy.ID), sx.I(slegacy.Kind)}, sents, sx.Bool(c.Factory)},
